@@ -926,6 +926,33 @@ Proof. intros H. unfold classify. rewrite H. reflexivity. Qed.
 Lemma deadline_is_fatal : is_fatal "context.DeadlineExceeded" = true.
 Proof. vm_compute. reflexivity. Qed.
 
+(* no status a handler can produce by returning an error is in the table, and the table names
+   nothing but the fault classes (both evaluated on the table regenerated from plugin.go) *)
+Lemma handler_classes_not_fatal_b : forallb (fun c => negb (is_fatal c)) handler_error_classes = true.
+Proof. vm_compute. reflexivity. Qed.
+
+Lemma handler_class_not_fatal c : In c handler_error_classes -> is_fatal c = false.
+Proof.
+  intros H. pose proof handler_classes_not_fatal_b as B. rewrite forallb_forall in B.
+  apply negb_true_iff. apply B. exact H.
+Qed.
+
+Lemma handler_class_vetoes (Rp : Type) c msg : In c handler_error_classes -> classify (Rp:=Rp) (Failed c msg) = Veto msg.
+Proof. intros H. apply nonfatal_class_vetoes. apply handler_class_not_fatal. exact H. Qed.
+
+Lemma fatal_table_exact_holds : fatal_table_exact = true.
+Proof. vm_compute. reflexivity. Qed.
+
+Lemma smem_In_local c l : smem c l = true -> In c l.
+Proof. apply smem_In. Qed.
+
+Lemma fatal_only_fault_classes c : is_fatal c = true -> In c fault_error_classes.
+Proof.
+  intros H. unfold is_fatal in H. apply smem_In_local in H.
+  pose proof fatal_table_exact_holds as E. unfold fatal_table_exact in E. rewrite forallb_forall in E.
+  apply smem_In_local. apply E. exact H.
+Qed.
+
 (* a call that lasts T or longer, or that fails with one of the fault classes, is Fatal *)
 Lemma failing_call_is_fatal (Rp : Type) (T : N) (c : call Rp) :
   (c_in_write c = false /\ (T <= c_dur c)%N) \/
